@@ -25,6 +25,7 @@ RUNS = {'quick': 64, 'thorough': 384}
 SIM_TIME_UNIT = 'time-stamps'
 SELFTEST_RUNS = 2      # one run enumerates ~900 fault sequences (about 2 s)
 SELFTEST_FRESH = 1
+RUN_LIMIT_S = 180        # one run enumerates hundreds of fault sequences
 RULE = ('seeded generation of (sampling period, period unit, default unit, tolerance, small past-time specification, sample '
         'values); inside each run every sequence of gap classes up to length 3 (quick) / 4 (thorough) over 8 classes is '
         'enumerated and 40/200 longer sequences (up to 12 gaps) are sampled, each for the online monitor (counter after every '
